@@ -27,5 +27,6 @@ def run(ctx, rep):
     rep.run(RM.rule_receiver_offset, ctx, rep, "M3")
     rep.run(RM.rule_defaults, ctx, rep, "M4")
     rep.run(RM.rule_one_id_per_arity, ctx, rep, "M5")
+    rep.run(RM.rule_group_by_name, ctx, rep, "M5")
     rep.run(RM.rule_return_shapes, ctx, rep, "M6")
     rep.run(RM.rule_marshalling_table, ctx, rep, "M7")
